@@ -1,7 +1,7 @@
 SPECIFICATION SpecMC
 CONSTANTS
   Variant = "ref"
-  Loadables <- PoolQuick
+  Loadables <- PoolCore
   OpKinds = {"Load", "Render", "Get", "Validate", "Remove", "Clear", "SetBasePath"}
   ArgNames = {"base", "A", "B", "G"}
   Entries = {"doc", "tpl"}
